@@ -87,7 +87,47 @@ def run_check(p):
     r = subprocess.run([f'{V}/check', p, '--tier', 'quick'], cwd=V, capture_output=True, text=True)
     m = re.search(r'VIOLATION property=\S+ replay=\S*?(replay-[a-z-]+|\S+)-?\d*\.\w+( no-failing-input-found)?', r.stdout)
     return p, ('violation' if 'VIOLATION' in r.stdout else None), r.returncode
+def auto_triage(s):
+    """survivors that are outside the 18 properties by construction"""
+    old = s['old'][0]
+    if s['kind'] == 'delete-effect' and 'extend_' in old and 'ttl' in old:
+        return 'outside: only a storage-lifetime extension is dropped (lifetimes beyond the modelled horizon of 4096 ledgers are in no property)'
+    if s['file'].endswith('axelar-soroban-std/src/events.rs'):
+        return 'outside: test-utility code (cfg(test / testutils)), not contract behaviour'
+    return None
+def retest(path):
+    """re-run the SURVIVED mutants recorded in another results file against THIS /verif and /repo"""
+    prev = json.load(open(path))
+    outp = f'{V}/mutants/RESULTS.json'
+    res = json.load(open(outp)) if os.path.exists(outp) else {}
+    env = dict(os.environ, CARGO_NET_OFFLINE='true')
+    for k, s in prev.items():
+        if s['status'] != 'SURVIVED':
+            res.setdefault(k, {kk: s[kk] for kk in ('file', 'line', 'kind', 'old', 'new', 'status') if kk in s} | ({'by': s.get('by')} if s.get('by') else {}))
+            continue
+        t = auto_triage(s)
+        if t:
+            res[k] = {kk: s[kk] for kk in ('file', 'line', 'kind', 'old', 'new')} | {'status': 'survived', 'triage': t}
+            continue
+        if k in res and res[k].get('retested'):
+            continue
+        assert clean(), '/repo not clean'
+        try:
+            apply(s)
+            b = subprocess.run(['cargo', 'build', '--offline'], cwd=f'{V}/harness', capture_output=True, text=True, env=env)
+            with ThreadPoolExecutor(max_workers=16) as ex:
+                out = list(ex.map(run_check, PROPS))
+            killed = [p for p, v, rc in out if v]
+            res[k] = {kk: s[kk] for kk in ('file', 'line', 'kind', 'old', 'new')} | {'status': 'killed' if killed else 'survived', 'by': killed, 'retested': True}
+        finally:
+            subprocess.run(['git', '-C', R, 'checkout', '--', '.'])
+        print(k, s['file'], s['line'] + 1, s['kind'], res[k]['status'], res[k].get('by', ''), flush=True)
+        json.dump(res, open(outp, 'w'), indent=1)
+    json.dump(res, open(outp, 'w'), indent=1)
+    subprocess.run(['cargo', 'build', '--offline'], cwd=f'{V}/harness', capture_output=True, env=env)
 def main():
+    if sys.argv[1] == 'retest':
+        return retest(sys.argv[2])
     ss = sites()
     if sys.argv[1] == 'list':
         from collections import Counter
